@@ -573,8 +573,38 @@ func analyze(c gengo.Context, gen string) {
 			c.RenderT("// @g: methods of @l@t: all [@a] value [@v]\n", snippet.Arg("g", snippet.Block(gen)), snippet.Arg("l", snippet.Block(label)), snippet.Arg("t", snippet.Block(n)), snippet.Arg("a", snippet.Block(all)), snippet.Arg("v", snippet.Block(val)))
 		}
 	}
+	// documentation as this package's Context reports it (leading name removed, tags merged): for the package's own
+	// types and their fields and for those of imported packages - the SAME declaration is then asked about from several
+	// packages of one run (seeded change C05-l: a shared cache of doc lines that Context.Doc edits in place)
+	docsOf := func(label string, q gengotypes.Package) {
+		var names []string
+		for n, t := range q.Types() {
+			if own(t.Pos()) {
+				names = append(names, n)
+			}
+		}
+		sort.Strings(names)
+		for _, n := range names {
+			obj := q.Types()[n]
+			_, doc := c.Doc(obj)
+			c.RenderT("// @g: doc of @l@t: @d\n", snippet.Arg("g", snippet.Block(gen)), snippet.Arg("l", snippet.Block(label)), snippet.Arg("t", snippet.Block(n)), snippet.Arg("d", snippet.Block(fmt.Sprintf("%q", doc))))
+			st, ok := obj.Type().Underlying().(*types.Struct)
+			if !ok {
+				continue
+			}
+			for i := 0; i < st.NumFields(); i++ {
+				f := st.Field(i)
+				if !f.Pos().IsValid() || f.Pkg() == nil || f.Pkg().Path() != q.Pkg().Path() {
+					continue
+				}
+				_, fdoc := c.Doc(f)
+				c.RenderT("// @g: doc of @l@t.@f: @d\n", snippet.Arg("g", snippet.Block(gen)), snippet.Arg("l", snippet.Block(label)), snippet.Arg("t", snippet.Block(n)), snippet.Arg("f", snippet.Block(f.Name())), snippet.Arg("d", snippet.Block(fmt.Sprintf("%q", fdoc))))
+			}
+		}
+	}
 	emit("", pkg)
 	methodsOf("", pkg, true)
+	docsOf("", pkg)
 	var ips []string
 	for ip := range pkg.Imports() {
 		if pkg.Module() != nil && strings.HasPrefix(ip, pkg.Module().Path+"/") {
@@ -586,6 +616,7 @@ func analyze(c gengo.Context, gen string) {
 		if q := pkg.Imports()[ip]; q != nil {
 			emit(ip+".", q)
 			methodsOf(ip+".", q, false)
+			docsOf(ip+".", q)
 		}
 	}
 	c.RenderT("\nvar _ = \"analyzed by @g\"\n\n", snippet.Arg("g", snippet.Block(gen)))
